@@ -15,10 +15,12 @@ def build_harness():
     os.makedirs(os.path.dirname(BIN), exist_ok=True)
     h = os.path.join(V, "harness")
     shutil.copy("/repo/go.sum", os.path.join(h, "go.sum"))
-    p = subprocess.run(["go", "build", "-tags", "verif", "-o", BIN, "."], cwd=h, env=ENV,
+    tmp = BIN + ".%d" % os.getpid()
+    p = subprocess.run(["go", "build", "-tags", "verif", "-o", tmp, "."], cwd=h, env=ENV,
                        stdout=subprocess.PIPE, stderr=subprocess.STDOUT, text=True)
     if p.returncode != 0:
         raise Machinery("harness does not build against /repo's working tree:\n" + p.stdout)
+    os.replace(tmp, BIN)       # atomic: concurrent checks never see a half-written binary
     return BIN
 
 def scratch(prefix):
